@@ -157,7 +157,12 @@ def encHandler : Handler ES where
           | .error _ => "obs err"
         ({ s with secrets := secrets }, [o])
       | none => (s, ["obs bad-op"])
-    | "builtin" :: _ => (s, ["obs checked"])   -- built-in configurations: direct oracles only (`viol` lines of the harness)
+    | "builtin" :: _ => (s, ["obs checked"])
+    | "unm" :: rest =>
+      match (kv rest "sec").bind unhex, kvNat rest "hook" with
+      | some sec, some hook =>
+        (s, ["obs stored " ++ hex (if hook == 1 then squashHookStored Opaque.methods sec else plainStored sec)])
+      | _, _ => (s, ["obs bad-op"])   -- built-in configurations: direct oracles only (`viol` lines of the harness)
     | _ => (s, ["obs bad-op"])
   onObs := fun s toks =>
     match toks with
